@@ -25,7 +25,7 @@ def gen(rng, tier):
         cmds.append("freenull")
         out.append(Scenario(cmds, tags=("history",)))
     for _ in range(n * 2):
-        st = laylib.setup(rng, mode=rng.choice([0, 1, 2, 3]), owners=True, links=True)
+        st = laylib.setup(rng, mode=rng.choice([0, 1, 2, 3]), owners=True, links=True, popts=True, relative=rng.random() < 0.2)
         tree = st["cmds"]
         files = laylib.files_of(tree)
         inj = rng.choice(["callback", "owner", "badline", "dangling", "none", "option"])
